@@ -141,7 +141,9 @@ def build_gather(P):
                + "".join("__CPROVER_requires(%s)\n" % r for r in req)
                + "__CPROVER_assigns(%s)\n" % assigns
                + "".join("__CPROVER_ensures(%s)\n" % e.split("   /*")[0] for e in ens))
-        return (HDR + SGE_MODEL + "#define P %d\n" % P + ghost + sig + "{" + pc.body + "}\n" + """
+        itv = ctx.func("src/celeritas/Types.hh", r"CELER_CONSTEXPR_FUNCTION bool is_track_valid\(TrackStatus status\)", [Rule(r"TrackStatus::(\w+)", r"TS_\1", "+", note="enum class value (bound)")], name="is_track_valid")
+        helper = "static bool is_track_valid(int status)     /* celeritas::is_track_valid (real body; only used by edited text) */\n{" + itv.body + "}\n"
+        return (HDR + SGE_MODEL + "#define P %d\n" % P + ghost + helper + sig + "{" + pc.body + "}\n" + """
 void h_sge(void)
 {
     size_type n, slot, w, nd; __CPROVER_assume(n >= 1 && n <= 8 && nd <= 16);
@@ -812,4 +814,53 @@ UNITS += [
          must_have=[r"ALH_launch_core.postcondition", r"loop_invariant_step"], checks=CHECKS,
          assumptions=["<= 16 track slots in the harness (loop closed by a loop contract)", "OpenMP parallel-for treated sequentially (not the 'track' OpenMP mode in this build); exceptions modelled as a per-thread flag"],
          note="launch_core (host kernel launcher used by every action): the executor runs exactly once for every thread id in [0, state size), also when some executions throw; the captured exceptions are rethrown only after the loop"),
+]
+
+
+# ---------------------------------------------------------------------------
+# StepCollector::StepCollector (host): which gather actions are registered
+# ---------------------------------------------------------------------------
+SCC = "src/celeritas/user/StepCollector.cc"
+SCC_RULES = [
+    Rule(r"CELER_EXPECT\(std::all_of\(.*?\}\)\);", "", (0, 1), flags=16, note="precondition over the callback vector (std::all_of + lambda) dropped: callbacks are non-null (stated)"),
+    Rule(r"CELER_EXPECT\(!callbacks\.empty\(\)\);", "CELER_EXPECT(ncallbacks != 0);", (0, 1), note="vector::empty()"),
+    Rule(r"CELER_EXPECT\((geo|aux_registry|action_registry)\);", "", "*", note="non-null shared pointers / registries (stated)"),
+    Rule(r"params_ = std::make_shared<StepParams>\(\s*aux_registry->next_id\(\), \*geo, callbacks\);", "/* params_ = make_shared<StepParams>(...): merged selection and detector map (unit c17_step_params_merge) */", 1, note="StepParams construction -> its two results used here (ghost fields)"),
+    Rule(r"aux_registry->insert\(params_\);", "", (0, 1), note="registry insertion of the params (no effect on delivery)"),
+    Rule(r"this->selection\(\)\.points\[StepPoint::pre\]", "self->sel_pre_any", "*", note="StepPointSelection::operator bool of the merged pre-step selection"),
+    Rule(r"params_->has_detectors\(\)", "self->has_detectors", "*", note="StepParams::has_detectors()"),
+    Rule(r"pre_action_\s*=\s*std::make_shared<StepGatherAction<StepPoint::pre>>\(\s*action_registry->next_id\(\), params_, VecInterface\{\}\);", "self->pre_action_ = 1;", (0, 1), flags=16, note="pre-step gather action created (without callbacks)"),
+    Rule(r"post_action_ = std::make_shared<StepGatherAction<StepPoint::post>>\(\s*action_registry->next_id\(\), params_, std::move\(callbacks\)\);", "self->post_action_ = 1; self->post_callbacks = ncallbacks;", (0, 1), flags=16, note="post-step gather action created with all callbacks"),
+    Rule(r"action_registry->insert\((pre|post)_action_\);", r"REG_insert(self, self->\1_action_, P_\1);", "*", note="ActionRegistry::insert -> ghost"),
+]
+
+
+def build_step_collector_ctor(ctx):
+    pc = ctx.func(SCC, r"^StepCollector::StepCollector\(SPConstGeo geo,", SCC_RULES, name="StepCollector::StepCollector (host)")
+    return (HDR + """
+enum { P_pre = 0, P_post = 1 };
+typedef struct { bool sel_pre_any, has_detectors; int pre_action_, post_action_; size_type post_callbacks; } StepCollector;
+unsigned g_registered[2];      /* ghost: gather actions inserted into the action registry, per step point */
+static void REG_insert(StepCollector* self, int action, int point) { __CPROVER_assert(action != 0, "celer_expect: ActionRegistry::insert(action) non-null"); ++g_registered[point]; }
+void SC_ctor(StepCollector* self, size_type ncallbacks)
+__CPROVER_requires(__CPROVER_rw_ok(self, sizeof(*self)) && ncallbacks != 0 && g_registered[0] == 0 && g_registered[1] == 0 && self->pre_action_ == 0 && self->post_action_ == 0)
+__CPROVER_assigns(self->pre_action_, self->post_action_, self->post_callbacks, __CPROVER_object_whole(g_registered))
+/* the post-step gather action always runs, with every callback */
+__CPROVER_ensures(g_registered[P_post] == 1 && self->post_callbacks == ncallbacks)
+/* the pre-step gather action runs whenever a pre-step quantity is selected OR detectors are mapped: only it sets the slot's detector id, without which the post-step gather delivers nothing */
+__CPROVER_ensures(g_registered[P_pre] == ((self->sel_pre_any || self->has_detectors) ? 1 : 0))
+{""" + pc.body + """}
+void h_scc(void)
+{
+    StepCollector c; unsigned a, b; size_type n; c.sel_pre_any = (a != 0); c.has_detectors = (b != 0);
+    SC_ctor(&c, n);
+    VERIF_CANARY();
+}
+""")
+
+
+UNITS += [
+    Unit("c17_step_collector_ctor", build_step_collector_ctor, "h_scc", enforce="SC_ctor", timeout=120, backend=["sat"], must_have=[r"SC_ctor.postcondition", r"celer_expect"], checks=["--bounds-check", "--pointer-check"],
+         assumptions=["shared_ptr / registry plumbing lowered to ghost flags (which action is created and inserted); StepParams' merged selection and detector map by unit c17_step_params_merge"],
+         note="StepCollector constructor (host): the post-step gather action is always registered with all callbacks; the pre-step gather action whenever a pre-step quantity is selected or any detector is mapped"),
 ]
